@@ -43,6 +43,11 @@ def build(x):
         return a * build(x["b"])
     if op == "div":
         return a / build(x["b"])
+    if op == "rdiv":
+        return Fraction(a, build(x["b"]))
+    if op == "rmul":
+        from y0.dsl import Product
+        return Product((a, build(x["b"])))
     if op == "marg":
         return a.marginalize([var(i) for i in x["r"]])
     if op == "cond":
@@ -148,7 +153,9 @@ def main():
             if obj is not None and "e" in out:
                 out["same_obj"] = obj == a
                 out["same_str"] = obj.to_y0() == a.to_y0()
-            recs.append({"id": rid, "k": "pp", "a": pre, "out": out, "text": a.to_y0()[:300]})
+            def has_raw(t):
+                return isinstance(t, dict) and (t.get("op") in ("rmul", "rdiv") or any(has_raw(t.get(k)) for k in ("a", "b")))
+            recs.append({"id": rid, "k": "pp", "a": pre, "out": out, "text": a.to_y0()[:300], "raw": has_raw(x)})
         else:
             recs.append({"id": rid, "k": "calc", "m": x, "out": out})
     json.dump({"recs": recs, "stats": stats}, open(sys.argv[2], "w"))
